@@ -575,13 +575,21 @@ pub fn check_declared(f: &FamEntry, tab: &[ResEntry], cnt: &mut ZCount, out: &mu
     cnt.leaves += leaves.len() as u64;
     let want_r: Vec<ResourceId> = leaves.iter().filter(|l| !l.write).map(|l| tab[l.res].rid.clone()).collect();
     let want_w: Vec<ResourceId> = leaves.iter().filter(|l| l.write).map(|l| tab[l.res].rid.clone()).collect();
-    let got_r = (f.reads)();
-    let got_w = (f.writes)();
+    // compared as sets: the property speaks of "the resources it reports", not of order or
+    // multiplicity of the report
+    let norm = |mut v: Vec<ResourceId>| {
+        v.sort();
+        v.dedup();
+        v
+    };
+    let (want_r, want_w) = (norm(want_r), norm(want_w));
+    let got_r = norm((f.reads)());
+    let got_w = norm((f.writes)());
     if got_r != want_r {
-        out.push(vio("reads-mismatch", format!("{} ({}): reads() lists {} ids, the members read {} resources (in order); first difference at position {}", f.name, f.desc, got_r.len(), want_r.len(), first_diff(&got_r, &want_r))));
+        out.push(vio("reads-mismatch", format!("{} ({}): reads() lists {} ids, the members read {} distinct resources; first difference at sorted position {}", f.name, f.desc, got_r.len(), want_r.len(), first_diff(&got_r, &want_r))));
     }
     if got_w != want_w {
-        out.push(vio("writes-mismatch", format!("{} ({}): writes() lists {} ids, the members write {} resources (in order); first difference at position {}", f.name, f.desc, got_w.len(), want_w.len(), first_diff(&got_w, &want_w))));
+        out.push(vio("writes-mismatch", format!("{} ({}): writes() lists {} ids, the members write {} distinct resources; first difference at sorted position {}", f.name, f.desc, got_w.len(), want_w.len(), first_diff(&got_w, &want_w))));
     }
 }
 
@@ -604,31 +612,43 @@ pub fn check_setup_case(f: &FamEntry, tab: &[ResEntry], present: &[usize], cnt: 
         out.push(vio("setup-panicked", format!("{}: setup panicked on a world with {:?} present", f.name, present)));
         return;
     }
-    // reference: members in order; a default-providing / custom leaf creates its resource if absent
-    let mut model: Vec<Option<u64>> = (0..tab.len()).map(|i| if present.contains(&i) { Some(100 + i as u64) } else { None }).collect();
+    // reference: the composition of the members' setups, in whatever order: a resource that was
+    // there keeps its value; an absent one is created by one of the default-providing / custom
+    // members that name it (whichever comes first in the order the implementation chose) and by
+    // nobody else
     let mut want_calls = vec![0u64; 64];
+    let mut creators: Vec<Vec<u64>> = vec![Vec::new(); tab.len()];
     for l in &leaves {
         match l.kind {
-            LKind::Default => {
-                if model[l.res].is_none() {
-                    model[l.res] = Some(0);
-                }
-            }
+            LKind::Default => creators[l.res].push(0),
             LKind::Custom(k) => {
                 want_calls[k] += 1;
-                if model[l.res].is_none() {
-                    model[l.res] = Some(MARK + k as u64);
-                }
+                creators[l.res].push(MARK + k as u64);
             }
             LKind::Expect | LKind::Optional => {}
         }
     }
     for (i, e) in tab.iter().enumerate() {
         let got = (e.tag)(&w);
-        if got != model[i] {
+        let ok = if present.contains(&i) {
+            got == Some(100 + i as u64)
+        } else if creators[i].is_empty() {
+            got.is_none()
+        } else {
+            got.map(|v| creators[i].contains(&v)).unwrap_or(false)
+        };
+        if !ok {
             out.push(vio(
                 "setup-world",
-                format!("{} ({}): after setup on a world with {:?} present, resource {} holds {:?}, the composition of the members' setups gives {:?}", f.name, f.desc, present, i, got, model[i]),
+                format!(
+                    "{} ({}): after setup on a world with {:?} present, resource {} holds {:?}; the composition of the members' setups leaves {}",
+                    f.name,
+                    f.desc,
+                    present,
+                    i,
+                    got,
+                    if present.contains(&i) { format!("the value it had ({})", 100 + i as u64) } else if creators[i].is_empty() { "it absent".to_string() } else { format!("one of {:?}", creators[i]) }
+                ),
             ));
         }
     }
